@@ -81,12 +81,13 @@ class SimClock:
         if self.call is not None:
             raise HarnessError('nested clock call')
         self.cur = node
-        self.call = {'node': node, 'reads': [], 'faults': list(faults)}
+        self.call = {'node': node, 'reads': [], 'all': [], 'faults': list(faults)}
 
     def end_call(self):
         c = self.call
         self.call = None
         self.cur = None
+        self.last_call = c      # ('would': values of reads that were made to fail)
         return c['reads']
 
     def value(self, name):
@@ -110,7 +111,7 @@ class SimClock:
             self.loose.append(v)
             return v
         k = len(c['reads'])
-        for f in c['faults']:
+        for f in list(c['faults']):
             if f['at_read'] == k:
                 kind = f['kind']
                 if kind == 'step':
@@ -124,10 +125,20 @@ class SimClock:
                 elif kind == 'unfreeze':
                     self.unfreeze(c['node'])
                     self._fire('unfreeze')
+                elif kind == 'fail':
+                    # the system call fails, once (EIO-like); what it would have
+                    # returned is kept for the oracle
+                    c['faults'].remove(f)
+                    v = self.value(c['node'])
+                    c.setdefault('would', []).append(v)
+                    c['all'].append(v)
+                    self._fire('clock_read_failed')
+                    raise OSError(5, 'simulated clock read failure')
                 else:
                     raise HarnessError(f'unknown clock fault {kind}')
         v = self.value(c['node'])
         c['reads'].append(v)
+        c['all'].append(v)
         self.tau += self.latency_us
         return v
 
